@@ -334,7 +334,8 @@ Print Assumptions C01_mutation_undeclared_def.
    (rule v_defexpand_placeholder_sibling) -- tested, not proved here.  The same holds for the LOOKUP of a declared
    definition by name ([tf_def_known] and the HED_DEF_UNMATCHED verdicts are facts): names with non-ASCII letters, incl.
    letters whose lower() differs from casefold(), referenced exactly as declared, through both entry points
-   (DefinitionDict / definition strings), and the SHAPES of declared definitions (no contents, one tag, one group, nested
+   (DefinitionDict / definition strings), definitions whose placeholder sits in a unit-class tag (values numeric / not, with a
+   valid unit / a bad unit / no unit: the rule code must be present AT ERROR SEVERITY), and the SHAPES of declared definitions (no contents, one tag, one group, nested
    groups, with / without placeholder; conforming and altered Def-expand groups), are generated as cases (rules v_def_name_special, v_def_name_plain) -- tested only. *)
 Theorem C01_mutation_altered_def_expand : forall cfg s f g gch t ld k,
   phase2_clean cfg s f -> phase3_total cfg f ->
